@@ -81,6 +81,10 @@ def create_linked_view(project, prefix=None, job_ids=None, path=None):
             links["./job"] = job.path
         assert len(links) < 2
 
+    for link_path in links:
+        if os.path.isabs(link_path) or os.pardir in link_path.split(os.sep):
+            raise RuntimeError(f"The path '{link_path}' is not below the view prefix.")
+
     # Updating the view will fail on Windows, if symlinks are not enabled.
     # Before re-raising the exception, print a helpful message for the expected error.
     try:
